@@ -626,13 +626,15 @@ def moment(
         reduced = a.sum(axis=axis, keepdims=keepdims)
         if order == 0:
             # When order equals 0, the result is 1, by definition.
-            return ones(
+            result = ones(
                 reduced.shape, chunks=reduced.chunks, dtype=dt, meta=reduced._meta
             )
-        # By definition the first order about the mean is 0.
-        return zeros(
-            reduced.shape, chunks=reduced.chunks, dtype=dt, meta=reduced._meta
-        )
+        else:
+            # By definition the first order about the mean is 0.
+            result = zeros(
+                reduced.shape, chunks=reduced.chunks, dtype=dt, meta=reduced._meta
+            )
+        return handle_out(out, result)
 
     implicit_complex_dtype = dtype is None and np.iscomplexobj(a)
 
